@@ -8,7 +8,9 @@ import (
 	"bytes"
 	"crypto"
 	"crypto/rsa"
+	_ "crypto/sha1"
 	"crypto/sha256"
+	_ "crypto/sha512"
 	"crypto/x509"
 	"fmt"
 	"math/big"
@@ -364,6 +366,22 @@ type BuildOpts struct {
 	SigAlgOID   []uint64
 	SigAlgNull  bool
 	Unsigned    []*der.Node // unauthenticated attributes
+	Hash        crypto.Hash // digest algorithm of the signer (0 = SHA-256); the caller supplies matching attributes
+	NoAttrs     bool        // no signed attributes at all (RFC 2315 9.3 / openssl -noattr): the signature is over Content
+	Content     []byte      // what is signed when NoAttrs is set
+}
+
+// HashOID returns the digest algorithm OID for the hashes Build knows.
+func HashOID(h crypto.Hash) []uint64 {
+	switch h {
+	case crypto.SHA1:
+		return []uint64{1, 3, 14, 3, 2, 26}
+	case crypto.SHA384:
+		return []uint64{2, 16, 840, 1, 101, 3, 4, 2, 2}
+	case crypto.SHA512:
+		return []uint64{2, 16, 840, 1, 101, 3, 4, 2, 3}
+	}
+	return OIDSHA256
 }
 
 // Build produces a SignedData with one SignerInfo signed by key for cert.
@@ -378,8 +396,16 @@ func Build(key *rsa.PrivateKey, cert *x509.Certificate, o BuildOpts) ([]byte, er
 	}
 	v := attrs.Value()
 	tbs := append(append([]byte{0x31}, der.EncodeLen(len(v))...), v...)
-	h := sha256.Sum256(tbs)
-	sig, err := rsa.SignPKCS1v15(nil, key, crypto.SHA256, h[:])
+	if o.NoAttrs {
+		tbs = o.Content
+	}
+	hash := o.Hash
+	if hash == 0 {
+		hash = crypto.SHA256
+	}
+	hh := hash.New()
+	hh.Write(tbs)
+	sig, err := rsa.SignPKCS1v15(nil, key, hash, hh.Sum(nil))
 	if err != nil {
 		return nil, err
 	}
@@ -387,7 +413,10 @@ func Build(key *rsa.PrivateKey, cert *x509.Certificate, o BuildOpts) ([]byte, er
 	if sigAlg == nil {
 		sigAlg = OIDRSA
 	}
-	si := der.Seq(der.SmallInt(o.SIVersion), der.Seq(issuer, der.Int(cert.SerialNumber.Bytes())), AlgID(OIDSHA256, o.DigestNull), attrs, AlgID(sigAlg, o.SigAlgNull), der.Octets(sig))
+	si := der.Seq(der.SmallInt(o.SIVersion), der.Seq(issuer, der.Int(cert.SerialNumber.Bytes())), AlgID(HashOID(hash), o.DigestNull), attrs, AlgID(sigAlg, o.SigAlgNull), der.Octets(sig))
+	if o.NoAttrs {
+		si = der.Seq(der.SmallInt(o.SIVersion), der.Seq(issuer, der.Int(cert.SerialNumber.Bytes())), AlgID(HashOID(hash), o.DigestNull), AlgID(sigAlg, o.SigAlgNull), der.Octets(sig))
+	}
 	if len(o.Unsigned) > 0 {
 		si.Children = append(si.Children, &der.Node{Class: der.ClassContext, Constructed: true, Tag: 1, Children: o.Unsigned})
 	}
@@ -395,7 +424,7 @@ func Build(key *rsa.PrivateKey, cert *x509.Certificate, o BuildOpts) ([]byte, er
 	if o.EContent != nil {
 		eci.Children = append(eci.Children, der.CtxC(0, o.EContent))
 	}
-	body := der.Seq(der.SmallInt(o.SDVersion), der.Set(AlgID(OIDSHA256, o.DigestNull)), eci)
+	body := der.Seq(der.SmallInt(o.SDVersion), der.Set(AlgID(HashOID(hash), o.DigestNull)), eci)
 	if o.Certs != nil {
 		c := &der.Node{Class: der.ClassContext, Constructed: true, Tag: 0, Opaque: true, Content: bytes.Join(o.Certs, nil)}
 		body.Children = append(body.Children, c)
